@@ -2,8 +2,14 @@
    spec_ok is written from the property text against the declarative fault classes of Model/ValidateSpec.v
    (wfc_b / wfm_b) and the ordering predicate of Model/PrepareSteps.v; it never calls the validators. *)
 From Verif Require Export Base.Prelude Base.StrOrd Base.StrUtil Base.Graph Model.MapSpec Model.MapSpecSpec
-  Model.PrepareSteps Model.Validate Model.ValidateSpec.
+  Model.PrepareSteps Model.Validate Model.ValidateSpec Model.Mutate.
 From Verif Require Model.Pipe.      (* the model of Pipeline.run of C02; used qualified (its field names clash) *)
+
+(* how the mutated pipeline is used next *)
+Inductive use_t :=
+| URun (fs : list raw_func)      (* pipeline(o, **root_args(o)) for the last function's first output *)
+| UMap (q : mreq).               (* pipeline.map on the folder of a previous valid run of q_funcs q, cleanup=False *)
+Definition base_funcs (u : use_t) : list raw_func := match u with URun fs => fs | UMap q => q_funcs q end.
 
 Inductive case :=
 | CConstruct (fs : list raw_func) (claimed_valid : bool)
@@ -16,7 +22,13 @@ Inductive case :=
     (* the non-Pure steps of prepare_run extracted from the source by the translator + did coqc accept
        gen/Check_PrepareSteps.v on the regenerated term *)
 | CClassify (tag : nat)
-| CCall (p : Pipe.pipeline) (o : str) (kw : Pipe.alist) (claimed_valid : bool).
+| CCall (p : Pipe.pipeline) (o : str) (kw : Pipe.alist) (claimed_valid : bool)
+| CMutate (mu : mutation) (u : use_t).
+    (* "mutate-then-use": a valid pipeline is built, ONE mutation is applied through the PipeFunc / Pipeline API,
+       then it is used.  observed: [never; state] (mutation and use accepted) |
+       [mutation; class; #calls; changed] (the mutating call raised) |
+       [use; class; #calls; folder changed?; state] (the next run / map raised); state = func_state of every
+       function after the mutation *)
     (* pipeline(o, **kw) on a constructed pipeline without MapSpecs (Pipe.run, the model validated by C02).
        observed: [accepted] | [rejected; class; #calls made before the exception] *)
     (* dynamic validation of the translator's classification table on valid request #tag:
@@ -46,6 +58,31 @@ Definition un_step (x : sx) : step :=
 
 Definition stage_name (st : stage) : str := match st with SFunc => s "func" | SAdd => s "add" end.
 
+Definition sx_pairs (d : list (str * str)) : sx := SL (map (fun kv => SL [SS (fst kv); SS (snd kv)]) d).
+Definition sx_state (fs : list raw_func) : sx :=
+  SL (map (fun f => match func_state f with
+                    | (names, dflt, bnd, sp) => SL [SL (map (fun l => SL (map SS l)) names); sx_pairs dflt; sx_pairs bnd; SS sp]
+                    end) fs).
+Definition run_mutate (mu : mutation) (u : use_t) : sx :=
+  match apply_mutation (base_funcs u) mu with
+  | Err e => SL [SS (s "mutation"); SS (s (err_name e)); SI 0; SI 0]
+  | Ok fs' =>
+      match u with
+      | URun _ =>
+          match use_run fs' with
+          | Err e => SL [SS (s "use"); SS (s (err_name e)); SI 0; SI 0; sx_state fs']
+          | Ok _ => SL [SS (s "never"); sx_state fs']
+          end
+      | UMap q =>
+          match map_model (fun _ => []) (with_funcs q fs') with
+          | (Ok _, _, _) => SL [SS (s "never"); sx_state fs']
+          | (Err e, tr, calls) =>
+              SL [SS (s "use"); SS (s (err_name e)); SN (length calls); SI (match tr with [] => 0 | _ => 1 end);
+                  sx_state fs']
+          end
+      end
+  end.
+
 Definition run (c : case) : sx :=
   match c with
   | CConstruct fs _ =>
@@ -62,6 +99,7 @@ Definition run (c : case) : sx :=
       end
   | CPrepOrder cleanup => SL [SL (map sx_step (map_steps cleanup)); SB true]
   | CClassify _ => SL []
+  | CMutate mu u => run_mutate mu u
   | CCall p o kw _ =>
       if Pipe.wf_pipelineb p then
         match Pipe.run Pipe.Sym.body Pipe.Sym.pick p o kw false with
@@ -122,6 +160,20 @@ Definition spec_ok (c : case) (obs : sx) : bool :=
       | _ => false
       end
   | CClassify _ => match obs with SL [] => true | _ => false end
+  | CMutate mu u =>
+      (* the state the mutation leaves behind, judged by the same fault classes as a freshly built pipeline /
+         a fresh request: if ill-formed, it must be rejected at the mutation or at the start of the next run / map,
+         before any user function runs and without altering the run folder (opened with cleanup=False) *)
+      let fs' := mutate_desc (base_funcs u) mu in
+      let faulty := negb (wfc_b fs') || match u with URun _ => false | UMap q => negb (wfm_b (with_funcs q fs')) end in
+      if faulty then
+        match obs with
+        | SL (SS t :: SS _ :: SI n :: SI ch :: _) =>
+            (str_eqb t (s "mutation") || str_eqb t (s "use")) && (n =? 0)%Z
+            && ((ch =? 0)%Z || match u with URun _ => false | UMap q => q_cleanup q end)
+        | _ => false
+        end
+      else true
   | CCall p o kw claimed =>
       if negb (call_in_scope p o kw) then true
       else if call_missing p o kw || call_surplus p o kw then
